@@ -282,7 +282,7 @@ func (h *Runner) genStep() Step {
 			return Step{Op: "lfsckpt"}
 		case x < 36 && h.Cfg.Clients:
 			// a WAL transaction that spills frames into the log and rolls back; LiteFS checkpoints afterwards
-			st := Step{Op: "wabort", CkptMode: r.Intn(2)}
+			st := Step{Op: "wabort", CkptMode: r.Intn(2), Split: r.Chance(40)}
 			for i := 0; i < 1+r.Intn(4); i++ {
 				st.Aborted = append(st.Aborted, [2]uint64{uint64(1 + r.Intn(int(cur)+2)), h.nextContent()})
 			}
@@ -594,6 +594,15 @@ func (h *Runner) Exec(st Step) Obs {
 				h.Pager.EndWALWrite()
 				return
 			}
+			if st.Split {
+				// ... and is interrupted inside one more frame: the log ends after that frame's header
+				pg := uint32(1 + len(h.Ref.Pages)/2)
+				if err = h.Pager.WriteTornFrame(lfs.WALFrameSpec{Pgno: pg, Data: h.page(pg, h.nextContent(), uint32(len(h.Ref.Pages)), true)}); err != nil {
+					h.Pager.DropPending()
+					h.Pager.EndWALWrite()
+					return
+				}
+			}
 			h.Pager.DropPending()
 			h.Pager.EndWALWrite() // nothing committed: nothing to capture
 			h.Pager.ResetTo(m)
@@ -629,6 +638,32 @@ func (h *Runner) Exec(st Step) Obs {
 			_ = h.DB.RemoveWAL(context.Background())
 			_ = h.DB.RemoveSHM(context.Background())
 			h.WALMode = false
+		case "torollbackj":
+			// PRAGMA journal_mode=DELETE as SQLite runs it (vdbe.c OP_JournalMode): the log is closed first - checkpointed
+			// completely, -wal and -shm deleted - and then page 1 is rewritten with version 1 in a transaction that
+			// "regardless of the journal mode ... always uses a rollback journal"
+			if err = h.appCheckpoint(3); err != nil {
+				return
+			}
+			h.Rec.Ops = append(h.Rec.Ops, "OWalTruncate")
+			_ = h.DB.RemoveWAL(context.Background())
+			_ = h.DB.RemoveSHM(context.Background())
+			d := append([]byte(nil), h.Ref.Pages[0]...)
+			lfs.SetHeader(d, ps, uint32(len(h.Ref.Pages)), false)
+			tx := lfs.Tx{Writes: map[uint32][]byte{1: d}, NewSize: uint32(len(h.Ref.Pages)), Wal: false}
+			first := len(h.Rec.Ops)
+			err = h.Pager.RunRollbackTx(h.Ref, tx, lfs.JournalMode(st.JMode), lfs.Commit, st.Sector, 0)
+			for i := first; i < len(h.Rec.Ops); i++ { // page writes inside a rollback-journal transaction
+				if strings.HasPrefix(h.Rec.Ops[i], "OWrite ") {
+					h.Rec.Ops[i] = "OWriteJ " + strings.TrimPrefix(h.Rec.Ops[i], "OWrite ")
+				}
+			}
+			if err == nil {
+				h.Ref = lfs.ApplyTx(h.Ref, tx, ps)
+				h.RefPos++
+				ob.Captured = true
+				h.WALMode = false
+			}
 		case "appckpt":
 			err = h.appCheckpoint(st.CkptMode)
 		case "lfsckpt":
